@@ -150,10 +150,12 @@ class KernelTx:
       name = s.targets[0].id
       t, d = self.stmts(rest, env | {name})
       return '(let %s := %s in %s)' % (name, v, t), conj([dv, '(let %s := %s in %s)' % (name, v, d)])
-    if isinstance(s, ast.If) and not s.orelse:
+    if isinstance(s, ast.If):
       c, dc = self.test(s.test, env)
-      t1, d1 = self.stmts(s.body, env)
-      t2, d2 = self.stmts(rest, env)
+      returns = lambda b: bool(b) and isinstance(b[-1], ast.Return)
+      # a branch that does not return continues with the statements after the `if` (locals it binds stay in scope there)
+      t1, d1 = self.stmts(list(s.body) + ([] if returns(s.body) else rest), env)
+      t2, d2 = self.stmts((list(s.orelse) + ([] if returns(s.orelse) else rest)) if s.orelse else rest, env)
       return '(if %s then %s else %s)' % (c, t1, t2), conj([dc, '(if %s then %s else %s)' % (c, d1, d2)])
     fail(f, s, 'statement')
 
